@@ -1554,7 +1554,11 @@ func (rl *Shell) editAndExecuteCommand() {
 	if err != nil || (len(edited) == 0 && len(buffer) != 0) {
 		rl.History.SkipSave()
 
-		errStr := strings.ReplaceAll(err.Error(), "\n", "")
+		errStr := "the edited buffer is empty"
+		if err != nil {
+			errStr = strings.ReplaceAll(err.Error(), "\n", "")
+		}
+
 		changeHint := fmt.Sprintf(color.FgRed+"Editor error: %s", errStr)
 		rl.Hint.SetTemporary(changeHint)
 
@@ -1576,7 +1580,11 @@ func (rl *Shell) editCommandLine() {
 	if err != nil || (len(edited) == 0 && len(buffer) != 0) {
 		rl.History.SkipSave()
 
-		errStr := strings.ReplaceAll(err.Error(), "\n", "")
+		errStr := "the edited buffer is empty"
+		if err != nil {
+			errStr = strings.ReplaceAll(err.Error(), "\n", "")
+		}
+
 		changeHint := fmt.Sprintf(color.FgRed+"Editor error: %s", errStr)
 		rl.Hint.SetTemporary(changeHint)
 
